@@ -159,9 +159,76 @@ def solveSt (p : Prog) (pick : Sched) : St := run p pick (fuel p (init p)) 0 (in
 /-- the liveness of every value after `initialize_and_run` under scheduler `pick` -/
 def solve (p : Prog) (pick : Sched) : List Bool := (solveSt p pick).live
 
+/-! ## Removability of one op *instance*
+
+`would_be_trivially_dead(op)` (`xdsl/transforms/dead_code_elimination.py`) is a function of the op
+instance, not of its class: `get_effects(op)` (`xdsl/traits.py`) asks every `MemoryEffect` trait of the
+class for the effects of *this* op, and `RegisterAllocatedMemoryEffect.get_effects`
+(`xdsl/backend/register_type.py`; every riscv / x86 instruction, `test.allocatable`) answers from the
+types of the op's results and operands: a `WRITE` per result whose type is an allocated register, a
+`READ` per such operand.  Two ops of one class therefore differ in removability.  `Inst` is what the
+harness reads off the real op (class-level traits, instance-level types); `instWbd` is the flag the
+solver model then uses (`opi` line), so no answer of the real function is copied into the model.
+Traits with a `get_effects` of their own that is not listed here (`dmp.swap`, stencil, recursive
+effects — the latter only on ops with regions, outside C25) are not described: such ops travel as
+`op` lines with the flag of the real function.  None of the listed traits attaches a value to an
+`ALLOC` effect, so `result_only_effects` reduces to "every effect is a `READ`". -/
+
+inductive EffKind
+  | read | write | alloc | free
+deriving DecidableEq, Repr
+
+/-- which implementation of `MemoryEffect.get_effects` a trait of the op's class uses -/
+inductive Trait
+  /-- `NoMemoryEffect` (`Pure`) -/
+  | noEffect
+  | read | write | alloc | free
+  /-- `RegisterAllocatedMemoryEffect` -/
+  | regAlloc
+deriving DecidableEq, Repr
+
+structure Inst where
+  /-- `op.has_trait(IsTerminator)` -/
+  term     : Bool := false
+  /-- `op.has_trait(SymbolOpInterface)` -/
+  sym      : Bool := false
+  /-- `op.get_traits_of_type(MemoryEffect)`; `[]`: no such trait, the effects are unknown -/
+  traits   : List Trait := []
+  /-- per operand: its type is a `RegisterType` with `is_allocated` -/
+  inAlloc  : List Bool := []
+  /-- per result: its type is a `RegisterType` with `is_allocated` -/
+  outAlloc : List Bool := []
+deriving Repr
+
+/-- `trait.get_effects(op)` (kinds only) -/
+def traitEffects (i : Inst) : Trait → List EffKind
+  | .noEffect => []
+  | .read => [.read]
+  | .write => [.write]
+  | .alloc => [.alloc]
+  | .free => [.free]
+  | .regAlloc =>
+    (i.outAlloc.filter id).map (fun _ => EffKind.write) ++ (i.inAlloc.filter id).map (fun _ => EffKind.read)
+
+/-- `get_effects(op)`: `none` without any `MemoryEffect` trait, else the union over the traits -/
+def getEffects (i : Inst) : Option (List EffKind) :=
+  if i.traits.isEmpty then none else some (i.traits.flatMap (traitEffects i))
+
+/-- `result_only_effects(op)` -/
+def resultOnlyEffects (i : Inst) : Bool :=
+  match getEffects i with
+  | none => false
+  | some es => es.all (· == EffKind.read)
+
+/-- `would_be_trivially_dead(op)` -/
+def instWbd (i : Inst) : Bool := !i.term && !i.sym && resultOnlyEffects i
+
+
 /-! Line protocol (state: program under construction and the block id given to the next ops):
-`reset <nvals>` · `blk <b>` · `op <wbd 0|1> <#operands> <operands…> <results…>` · `seed <v>` ·
-`exit <v>` · `pre <b>` · `post <b>` ·
+`reset <nvals>` · `blk <b>` · `op <wbd 0|1> <#operands> <operands…> <results…>` ·
+`opi <term 0|1> <sym 0|1> <traits> <inAlloc> <outAlloc> <#operands> <operands…> <results…>` (the flag is
+`instWbd`; `<traits>`: `-` or letters `N r w a f G`; `<inAlloc>`/`<outAlloc>`: `-` or one bit per
+operand/result) · `wbd` (→ the flags of all ops) · `seed <v>` · `exit <v>` · `pre <b>` · `post <b>` ·
 `solve <i₀ i₁ …>` (index chosen at iteration k, 0 when the list is exhausted; FIFO = `solve`). -/
 
 def natList (ws : List String) : Option (List Nat) := ws.mapM String.toNat?
@@ -169,6 +236,17 @@ def natList (ws : List String) : Option (List Nat) := ws.mapM String.toNat?
 def showBits (l : List Bool) : String := String.join (l.map fun b => if b then "1" else "0")
 
 def showNats (l : List Nat) : String := ",".intercalate (l.map toString)
+
+def parseTraits (w : String) : Option (List Trait) :=
+  if w == "-" then some [] else
+  w.toList.mapM fun c =>
+    if c == 'N' then some Trait.noEffect else if c == 'r' then some Trait.read
+    else if c == 'w' then some Trait.write else if c == 'a' then some Trait.alloc
+    else if c == 'f' then some Trait.free else if c == 'G' then some Trait.regAlloc else none
+
+def parseBits (w : String) : Option (List Bool) :=
+  if w == "-" then some [] else
+  w.toList.mapM fun c => if c == '1' then some true else if c == '0' then some false else none
 
 def lineStep (pc : Prog × Nat) (line : String) : (Prog × Nat) × String :=
   let (p, cur) := pc
@@ -189,6 +267,16 @@ def lineStep (pc : Prog × Nat) (line : String) : (Prog × Nat) × String :=
             [{ operands := vs.take n, results := vs.drop n, wbd := w == 1, blk := cur }] }, cur), "ok")
       else (pc, "bad-op")
     | _, _, _ => (pc, "bad-op")
+  | "opi" :: t :: sy :: tr :: ia :: oa :: n :: rest =>
+    match t.toNat?, sy.toNat?, parseTraits tr, parseBits ia, parseBits oa, n.toNat?, natList rest with
+    | some t, some sy, some tr, some ia, some oa, some n, some vs =>
+      if t ≤ 1 ∧ sy ≤ 1 ∧ n ≤ vs.length ∧ ia.length = n ∧ oa.length = vs.length - n then
+        let i : Inst := { term := t == 1, sym := sy == 1, traits := tr, inAlloc := ia, outAlloc := oa }
+        (({ p with ops := p.ops ++
+            [{ operands := vs.take n, results := vs.drop n, wbd := instWbd i, blk := cur }] }, cur), "ok")
+      else (pc, "bad-op")
+    | _, _, _, _, _, _, _ => (pc, "bad-op")
+  | ["wbd"] => (pc, s!"wbd={showBits (p.ops.map (·.wbd))}")
   | ["seed", v] =>
     match v.toNat? with
     | some v => (({ p with seeds := p.seeds ++ [v] }, cur), "ok")
